@@ -58,7 +58,7 @@ def run_demo(r, mdir, workdir, tag):
         return None, "demo does not build: " + b.stderr[-400:]
     env = dict(os.environ, ASAN_OPTIONS="detect_leaks=1", UBSAN_OPTIONS="halt_on_error=1")
     try:
-        p = subprocess.run([exe], capture_output=True, text=True, errors="replace", timeout=120, cwd=workdir, env=env)
+        p = subprocess.run([exe], capture_output=True, text=True, errors="replace", timeout=600, cwd=workdir, env=env)
         return p.returncode, (p.stdout + p.stderr)[-300:]
     except subprocess.TimeoutExpired:
         return 124, "timeout"
@@ -70,6 +70,7 @@ def main():
     ap.add_argument("--checks")
     ap.add_argument("--keep-name")
     ap.add_argument("--skip-tests", action="store_true")
+    ap.add_argument("--tier", default="quick")
     a = ap.parse_args()
     mdir = os.path.abspath(a.mdir)
     meta = json.load(open(os.path.join(mdir, "meta.json")))
@@ -77,7 +78,7 @@ def main():
     name = a.keep_name or "%s-%s" % (prop, os.path.basename(mdir))
     checks = (a.checks.split(",") if a.checks else [prop])
     patch = os.path.join(mdir, "patch.diff")
-    res = {"name": name, "property": prop, "checks_run": checks}
+    res = {"name": name, "property": prop, "checks_run": checks, "tier": a.tier}
 
     # ---- 1. confirm in a scratch worktree
     work = tempfile.mkdtemp(prefix="seedtest.")
@@ -121,7 +122,7 @@ def main():
     try:
         for c in checks:
             t0 = time.time()
-            p = sh(["python3", "check.py", c, "--tier", "quick"], cwd=ROOT)
+            p = sh(["python3", "check.py", c, "--tier", a.tier], cwd=ROOT)
             vio = [l for l in p.stdout.splitlines() if l.startswith("VIOLATION")]
             notes = [l.strip() for l in p.stderr.splitlines() if "violation:" in l or "corr:" in l or "proof:" in l][:4]
             det[c] = {"exit": p.returncode, "violations": vio[:3], "n_violations": len(vio), "notes": [n[:300] for n in notes],
